@@ -376,6 +376,28 @@ def psession(exe, lines, nproc=None, **kw):
     return out, rc, err
 
 
+def psession_resilient(exe, lines, nproc=None, **kw):
+    """psession whose processes survive a request on which the harness dies (see session_resilient): that request's answer
+    is `crash status=<how>`, every other request is still answered"""
+    nproc = nproc or min(NPROC, 16)
+    if len(lines) < 4 * nproc:
+        return session_resilient(exe, lines, **kw)
+    chunks = [lines[i::nproc] for i in range(nproc)]
+    with ThreadPoolExecutor(max_workers=nproc) as ex:
+        rs = list(ex.map(lambda c: session_resilient(exe, c, **kw), chunks))
+    out = [None] * len(lines)
+    err = ''
+    rc = 0
+    for i, (o, r, e) in enumerate(rs):
+        if len(o) != len(chunks[i]):
+            return [], r, e
+        for j, x in enumerate(o):
+            out[i + j * nproc] = x
+        err += e[-300:]
+        rc = rc or r
+    return out, rc, err
+
+
 def driver_exe():
     return os.path.join(LEAN, '.lake', 'build', 'bin', 'blfdriver')
 
